@@ -26,7 +26,7 @@ LEVEL_TEXT = ('every connection specification within the stated bound is built w
               'the property has no numeric/temporal quantifier, so exhaustive bounded enumeration is the honest level')
 BOUNDS = {'quick': {'blocks': '2 Inputs + FuncBlock(1 unnamed + named single + group 0..1) + And(group 0..2 over 6 reference forms)',
                     'styles': ['object', 'name', '_not_NAME (S and C blocks)', 'Const', 'bare constant']},
-          'thorough': {'blocks': '2 Inputs + FuncBlock(1 unnamed + named single + group 0..3) + And(group 0..3) + Override',
+          'thorough': {'blocks': '2 Inputs + FuncBlock(1 unnamed + named single + group 0..3) + And(group 0..3) [one group up to 3 while the other is 0..1] + Override',
                        'styles': 'as quick'}}
 OUTSIDE = ["more than 5 user blocks (statement: up to 8)", "iterators as group specifications (deprecated)"]
 STUBS = ["Circuit.sblock_queue = list-backed stub; finalisation = real resolver.resolve()/finalize()/start()"]
@@ -89,7 +89,7 @@ def choose_group(env, n_max, opts, label):
     return [opts[env.choose(len(opts), f'{label}_{i}')] for i in range(n)]
 
 
-def scen_valid(env, gmax, first=None, with_override=False, small=False):
+def scen_valid(env, gmax, first=None, with_override=False, small=False, g0max=None, g1max=None, by_name=None):
     circ = sync_circuit()
     s0 = edzed.Input('s0', initdef=0)
     s1 = edzed.Input('s1', initdef=1)
@@ -100,7 +100,7 @@ def scen_valid(env, gmax, first=None, with_override=False, small=False):
     u = first if first is not None else o_s[env.choose(len(o_s), 'c0_unnamed')]
     u = tuple(u)
     single = o_s[env.choose(len(o_s), 'c0_single')]
-    grp = choose_group(env, 1 if small else gmax, o_s, 'c0_grp')
+    grp = choose_group(env, g0max if g0max is not None else (1 if small else gmax), o_s, 'c0_grp')
     c0 = edzed.FuncBlock('c0', func=lambda *a, **k: 0)
     gform = env.choose(2, 'grp_form')
     g = [realise(o, objs) for o in grp]
@@ -108,7 +108,7 @@ def scen_valid(env, gmax, first=None, with_override=False, small=False):
     objs['c0'] = c0
     # c1: And over a group that may refer to c0 / _not_c0
     o_c1 = [('obj', 's0'), ('not', 's0'), ('name', 'c0'), ('not', 'c0'), ('const', 7), ('not', 's1')] if small else o_all
-    g1 = choose_group(env, 2 if small else gmax, o_c1, 'c1_grp')
+    g1 = choose_group(env, g1max if g1max is not None else (2 if small else gmax), o_c1, 'c1_grp')
     c1 = edzed.And('c1')
     if g1:
         c1.connect(*[realise(o, objs) for o in g1])
@@ -121,7 +121,8 @@ def scen_valid(env, gmax, first=None, with_override=False, small=False):
         ov = edzed.Override('ov').connect(input=realise(a, objs), override=realise(b, objs))
         spec['ov'] = {'input': a, 'override': b}
     # events and filters by name / by object
-    by_name = env.choose(2, 'events_by_name')
+    if by_name is None:
+        by_name = env.choose(2, 'events_by_name')
     ev = edzed.Event('s1' if by_name else s1, 'put',
                      efilter=[edzed.IfOutput('c0' if by_name else c0), edzed.IfNotIitialized('s0' if by_name else s0),
                               edzed.DataEdit.add_output('k', '_not_s1' if by_name else s1)])
@@ -297,15 +298,24 @@ def scen_invalid(env, which):
 
 
 def shards(tier):
-    gmax = 2 if tier == 'quick' else 3
     out = []
-    for first in options(False):
-        out.append({'name': f'valid c0_unnamed={first}', 'scenario': 'scen_valid',
-                    'params': {'gmax': gmax, 'first': list(first), 'small': tier == 'quick'}, 'cost': 10})
-    if tier == 'thorough':
+    if tier == 'quick':
         for first in options(False):
+            out.append({'name': f'valid c0_unnamed={first}', 'scenario': 'scen_valid',
+                        'params': {'gmax': 2, 'first': list(first), 'small': True}, 'cost': 10})
+    else:
+        # sized by path counts (about 600 paths/s per core): the full product of both groups up to 3 is 27 million
+        # configurations per shard, so each group reaches size 3 while the other one stays at 0..1
+        for first in options(False):
+            out.append({'name': f'valid c0 group<=3, c1 group<=1, c0_unnamed={first}', 'scenario': 'scen_valid',
+                        'params': {'gmax': 3, 'first': list(first), 'g0max': 3, 'g1max': 1}, 'cost': 225})
+            for bn in (0, 1):
+                out.append({'name': f'valid c0 group<=1, c1 group<=3, events_by_name={bn}, c0_unnamed={first}',
+                            'scenario': 'scen_valid',
+                            'params': {'gmax': 3, 'first': list(first), 'g0max': 1, 'g1max': 3, 'by_name': bn}, 'cost': 211})
             out.append({'name': f'valid+override c0_unnamed={first}', 'scenario': 'scen_valid',
-                        'params': {'gmax': 1, 'first': list(first), 'with_override': True}, 'cost': 10})
+                        'params': {'gmax': 1, 'first': list(first), 'with_override': True, 'g0max': 0, 'g1max': 1},
+                        'cost': 46})
     for w in INVALID:
         out.append({'name': f'invalid {w}', 'scenario': 'scen_invalid', 'params': {'which': w}})
     return out
